@@ -43,7 +43,8 @@ def meshes(maxdev):
 def bounds(tier):
   return dict(meshes='all (z,x,y) with z*x*y <= 8 (%d shapes)' % len(meshes(8)), einsum_patterns=[p[0] for p in PATTERNS],
               gather_inputs=[None, True, False], reverse_arg_order=[False, True], cumsum_lengths='z*{1,2,3}', level_counts=[1, 2, 3, 5, 7] if tier == 'thorough' else [1, 3, 5],
-              steps='dry SIL3+filters, moist RK3+filters; 2 steps; states = multisets of <= 1 excitation (+pairs in thorough)')
+              steps='dry SIL3+filters, moist RK3+filters; 2 steps; states = multisets of <= 1 excitation (+pairs in thorough)',
+              ring_axis_sizes='every even size 2..%d through jax.vmap(axis_name) emulation of the ring collectives, 4 patterns x chunk {1,2} x strategy x argument order, one-hot rhs; odd sizes 3..17 rejected' % (16 if tier == 'quick' else 64))
 
 
 # (subscripts, rhs dims tagged with the mesh axis that shards them or None, out spec builder)
@@ -73,6 +74,8 @@ def units(tier, seed):
       if tier == 'quick' and kind in ('implicit', 'steps') and m not in CORE:
         continue
       us.append(dict(mesh=list(m), kind=kind, full=tier == 'thorough', palette=pal[0]))
+  for n in range(2, (16 if tier == 'quick' else 64) + 1, 2):
+    us.append(dict(kind='ring', axis_size=n, full=tier == 'thorough'))
   return us
 
 
@@ -443,5 +446,86 @@ def _steps_unit(unit, rec):
         rec.close(b_, a, scale=sc, C=1e5, site='sharded_step_equals_single_device', key=key, sig={'class': cls}, extra={'state': list(ms)})
 
 
+# -- (vi) the ring collectives beyond the device count ------------------------------------------------------
+
+RING_PATTERNS = [
+    # (einsum, lhs dims, reduce subscript, scatter/transfer subscript)
+    ('ij,jk->ik', 'j', 'i'),
+    ('mjl,sml->smj', 'l', 'j'),     # inverse Legendre: reduce total wavenumber, scatter latitude
+    ('im,zmj->zij', 'm', 'i'),      # inverse Fourier: reduce longitude wavenumber, scatter longitude
+    ('mjl,zsmj->zsml', 'j', 'l'),   # forward Legendre: reduce latitude, scatter total wavenumber
+]
+
+
+def _ring_unit(unit, rec):
+  """The two ring collectives are SPMD programs over ONE named axis.  jax.vmap(axis_name=...) executes the very same
+  lax.psum / axis_index / ppermute / fori_loop program for any axis size on a single device, so the real functions
+  are run for every even axis size up to the bound (far beyond the 8 forced host devices) with one-hot inputs for
+  every rhs entry and integer lhs entries: every output entry is then a single lhs entry and must be EXACT.  Sizes
+  2, 4, 8 are also executed through shard_map on real (forced host) devices in the einsum units (conformance of the
+  emulation)."""
+  import jax, jax.numpy as jnp
+  from dinosaur import jax_numpy_utils as jnu
+  N = unit['axis_size']
+  for subs, red, sca in RING_PATTERNS:
+    lhs_s, rest = subs.split(',')
+    rhs_s, out_s = rest.split('->')
+    for c in ((1, 2) if unit['full'] or N <= 8 else (1,)):          # chunk size per device
+      dims = {ch: 2 for ch in set(lhs_s + rhs_s)}
+      dims[red] = N * c
+      dims[sca] = N * c
+      if 'z' in dims:
+        dims['z'] = 1
+      lhs_shape = tuple(dims[ch] for ch in lhs_s); rhs_shape = tuple(dims[ch] for ch in rhs_s)
+      lhs = (1.0 + np.arange(math.prod(lhs_shape))).reshape(lhs_shape)
+      nr = math.prod(rhs_shape)
+      onehots = np.eye(nr).reshape((nr,) + rhs_shape)
+      want = np.einsum(subs.replace(rhs_s, 'B' + rhs_s, 1).replace('->' + out_s, '->B' + out_s), lhs, onehots)
+      ra = rhs_s.index(red)          # rhs axis sharded over the ring
+      la_red, la_sca = lhs_s.index(red), lhs_s.index(sca)
+      oa = out_s.index(sca)
+
+      def shard(x, axis):            # (B, ...) -> (B, N, ...chunk...) device-major along `axis` (axis counts without B)
+        x = np.asarray(x)
+        shp = x.shape
+        new = shp[:axis + 1] + (N, shp[axis + 1] // N) + shp[axis + 2:]
+        return np.moveaxis(x.reshape(new), axis + 1, 1)
+      rhs_dev = shard(onehots, ra)                                           # (B, N, chunked rhs)
+      for rev in (False, True):
+        # all-gather: lhs full along the reduced axis, chunked along the scattered (output) axis on each device
+        key = ('ring', N, subs, c, 'allgather', rev)
+        lhs_dev = np.moveaxis(lhs.reshape(lhs.shape[:la_sca] + (N, c) + lhs.shape[la_sca + 1:]), la_sca, 0)       # (N, lhs with sca chunk)
+        f = lambda l, r: jnu._allgather_matmul_twoway(subs, l, r, split_axis=la_red, axis_name='ring', reverse_arg_order=rev, precision='highest')
+        got = np.asarray(jax.jit(jax.vmap(jax.vmap(f, axis_name='ring'), in_axes=(None, 0)))(jnp.asarray(lhs_dev), jnp.asarray(rhs_dev)))   # (B, N, out with sca chunk)
+        got = np.moveaxis(got, 1, oa + 1)
+        got = got.reshape(want.shape)
+        rec.case(key, transitions=nr, outcome=got.tobytes(), sample={'axis_size': N, 'pattern': subs, 'chunk': c, 'strategy': 'allgather', 'reverse_arg_order': rev, 'one_hots': nr})
+        rec.exact(got, want, site='ring_allgather_matmul_exact_on_one_hots', key=key, sig={'pattern': subs})
+        # reduce-scatter: lhs chunked along the reduced axis like rhs, full along the scattered axis; output chunk d lands on device d
+        key = ('ring', N, subs, c, 'reducescatter', rev)
+        lhs_dev = np.moveaxis(lhs.reshape(lhs.shape[:la_red] + (N, c) + lhs.shape[la_red + 1:]), la_red, 0)
+        g = lambda l, r: jnu._matmul_reducescatter_twoway(subs, l, r, scatter_axis=la_sca, axis_name='ring', reverse_arg_order=rev, precision='highest')
+        got = np.asarray(jax.jit(jax.vmap(jax.vmap(g, axis_name='ring'), in_axes=(None, 0)))(jnp.asarray(lhs_dev), jnp.asarray(rhs_dev)))
+        got = np.moveaxis(got, 1, oa + 1)
+        got = got.reshape(want.shape)
+        rec.case(key, transitions=nr, outcome=got.tobytes(), sample={'axis_size': N, 'pattern': subs, 'chunk': c, 'strategy': 'reducescatter', 'reverse_arg_order': rev, 'one_hots': nr})
+        rec.exact(got, want, site='ring_matmul_reducescatter_exact_on_one_hots', key=key, sig={'pattern': subs})
+  # odd axis sizes must be rejected, never mis-computed
+  if N > 1 and N <= 16:
+    odd = N + 1
+    key = ('ring_rejects_odd', odd)
+    lhs = np.ones((2, odd)); rhs = np.ones((odd, 1, 2))
+    for name, fn in (('allgather', lambda r: jnu._allgather_matmul_twoway('ij,jk->ik', jnp.asarray(lhs), r, split_axis=1, axis_name='ring')),
+                     ('reducescatter', lambda r: jnu._matmul_reducescatter_twoway('ij,jk->ik', jnp.asarray(np.ones((odd, 1))), r, scatter_axis=0, axis_name='ring'))):
+      try:
+        jax.vmap(fn, axis_name='ring')(jnp.asarray(rhs))
+        rec.fail('ring_odd_axis_rejected', key, {'strategy': name, 'outcome': 'accepted silently'})
+      except ValueError as e:
+        rec.check(REJECTION in str(e), 'ring_odd_axis_rejected', key, {'strategy': name, 'error': str(e)[:200]})
+    rec.case(key, transitions=2, outcome=('rejected', odd))
+
+
 def work(unit, rec):
+  if unit['kind'] == 'ring':
+    return _ring_unit(unit, rec)
   dict(einsum=_einsum_unit, cumsum=_cumsum_unit, grid=_grid_unit, implicit=_implicit_unit, steps=_steps_unit)[unit['kind']](unit, rec)
